@@ -269,7 +269,7 @@ def run(ctx: Ctx) -> None:
     ctx.call(T.t_a1, "1d/T.A1")
     ctx.call(who_may_unset, "2")
     ctx.call(sync_table, "3")
-    ctx.call(N.clean_decision_table, "4")
+    ctx.call(N.clean_decision_table, "4", True)
     ctx.call(T.t_g5, "5/T.G5")
     ctx.call(N.readiness_table, "6", "cleanup")
     ctx.call(N.pick_agreement, "6p", "cleanup")
